@@ -4,6 +4,7 @@ template table, only on Gen/Tables.lean, so they are not re-elaborated when a pa
 -/
 import PartituraModel.Model.MatchCodec
 import PartituraModel.Proofs.C07Codec
+import PartituraModel.Proofs.C07Frac
 
 namespace C07
 open Model Model.Template Model.MatchCodec
@@ -91,17 +92,46 @@ example : printFixed 4 true 12345 = "-1.2345".toList ∧ encFix 4 (1 / 32) = "0.
     encFix 4 (3 / 32) = "0.0938".toList ∧ encFix 4 (5 / 100000) = "0.0001".toList ∧
     encRepr (5 / 4) = some "1.25".toList ∧ encRepr 3 = some "3.0".toList := by decide +kernel
 
-/-- **durations keep their value through the string round trip**: every simple duration `n`, `n/d`,
-    `n/d/t` within the bound is read back from its text as the same object (hence the same value, and
-    the same text again).  (`_partial`: for additive durations `a+b+…` the string round trip is the
-    left fold of `frac_add_exact`; it is evaluated on examples below and compared on generated sums.) -/
-theorem frac_string_roundtrip_partial (f : Frac) (ha : f.add = none) (hn : f.num ≤ BOUND) (hd : f.den ≤ BOUND) :
-    fracFromString f.toStr = .ok f := C07Codec.fracFromString_toStr f ha hn hd
+/-- **durations keep their value through the string round trip**: every duration the class builds - simple
+    `n`, `n/d`, with tuplet divisor `n/d/t`, or additive `c₁+c₂+…` (`FracWF`: two or more components with
+    non-zero numerator, numbers within the bound, the object being the left-to-right sum of its
+    components) - is read back from its text as the SAME object, hence the same value and the same text -/
+theorem frac_string_roundtrip (f : Frac) (h : C07Codec.FracWF f) : fracFromString f.toStr = .ok f :=
+  C07Codec.fracFromString_toStr_full f h
+
+/-- **formatting fixpoint of durations**: whatever text `s` was read as the duration `f` (no `+`-separated
+    part of `s` being a zero duration - those are dropped from the components), `f` is well formed, so the
+    text written for `f` is read as `f` again and written identically -/
+theorem frac_string_fixpoint (s : Str) (f : Frac) (h : fracFromString s = .ok f)
+    (hz : ∀ ps, (splitOn '+' s).mapM C07Codec.oneF = .ok ps → ∀ p ∈ ps, p.num ≠ 0) :
+    fracFromString f.toStr = .ok f ∧ ((fracFromString f.toStr).toOption.map Frac.toStr) = some f.toStr := by
+  have hw := C07Codec.frac_fixpoint s f h hz
+  have := C07Codec.fracFromString_toStr_full f hw
+  exact ⟨this, by rw [this]; rfl⟩
+
+/-- reading `c₁+c₂+…`: the object is the left-to-right sum, it carries exactly the components, and its value
+    is the exact sum of the component values (**duration addition is exact** along the whole chain) -/
+theorem frac_additive_value (cs : List C07Codec.Comp) (h2 : 2 ≤ cs.length) (hc : ∀ c ∈ cs, C07Codec.CompOK c)
+    (f : Frac) (h : fracFromString (C07Codec.compsStr cs) = .ok f) :
+    f.add = some cs ∧ f.value = ((cs.map C07Codec.compFrac).map Frac.value).foldr (· + ·) 0 := by
+  rw [C07Codec.fracFromString_compsStr cs h2 hc] at h
+  refine ⟨C07Codec.fracSum_add cs h2 hc f h, ?_⟩
+  rw [C07Codec.fracSum_eq] at h
+  have := C07Codec.foldlM_value _ _ f h
+  rw [this]
+  simp [Frac.value, Frac.fullDen]
 
 example : (fracFromString "1/4+1/8/3+3".toList).toOption.map Frac.toStr = some "1/4+1/8/3+3".toList := by
   decide +kernel
 example : fracFromString (Frac.toStr ⟨7, 1, none, none⟩) = .ok ⟨7, 1, none, none⟩ ∧
     Frac.toStrRational ⟨7, 1, none, none⟩ = "7/1".toList := by decide +kernel
+-- non-vacuity of `frac_string_roundtrip` / `frac_additive_value`: 1/4 + 1/8/3 + 3
+example : C07Codec.compsStr [(1, 4, none), (1, 8, some 3), (3, 1, none)] = "1/4+1/8/3+3".toList ∧
+    fracFromString "1/4+1/8/3+3".toList = .ok ⟨79, 24, none, some [(1, 4, none), (1, 8, some 3), (3, 1, none)]⟩ := by
+  decide +kernel
+-- a zero part is dropped: same text and value afterwards, but a different object (the excluded case of the fixpoint)
+example : (fracFromString "0/3+1/4".toList).toOption.map (fun f => (f.num, f.den, f.toStr)) = some (3, 12, "1/4".toList) := by
+  decide +kernel
 
 /-- the format version written as `major.minor.patch` is read back as itself -/
 theorem version_roundtrip (a b c : Nat) : decode .version (encVersion a b c) = .ok (.ver a b c) := by
@@ -129,5 +159,160 @@ theorem list_body_roundtrip (items : List Str) (hw : C07Codec.Words items) (hne 
 
 example : decList "[]".toList = [] ∧ decList [] = [] ∧ decList "[staff1, s ,v1]".toList = ["staff1".toList, "s".toList, "v1".toList]
     ∧ encList [] = "[]".toList := by decide +kernel
+
+-- ---------------------------------------------------------------- quoted strings, tempo, integer lists, time signatures
+
+/-- pre-1.0 quoted strings (`'Sonata K. 331'`): a non-empty text without blanks at its ends is read back -/
+theorem quoted_roundtrip (s : Str) (hs : strip s = s) (hne : s ≠ []) :
+    decode .strOld (encQuoted s) = .ok (.str s) := by
+  simp only [decode, C07Codec.decStrOld_encQuoted s hs hne]
+
+example : encQuoted "it's a,b".toList = "'it's a,b'".toList ∧ decStrOld "'it's a,b'".toList = "it's a,b".toList := by
+  decide +kernel
+
+/-- tempo indication of 1.0.0 (`Lento ma non troppo`): one text without comma, not starting with `[` -/
+theorem tempo_roundtrip (s : Str) (hs : strip s = s) (hne : s ≠ []) (hc : ∀ c ∈ s, c ≠ ',')
+    (hb : s.head? ≠ some '[') : decode .tempo s = .ok (.tempo s) := by
+  simp only [decode, C07Codec.decTempo_id s hs hne hc hb, liftO, Except.map]
+
+/-- integer lists (`beatSubDivision` of 1.0.0 as `[2,3]`, the onsets of `ptime([…]).`), any length, any sign -/
+theorem int_list_roundtrip (l : List Int) :
+    decode .listInt (encList (l.map showIntS)) = .ok (.ints l) ∧
+    decode .listInt (encListBody (l.map showIntS)) = .ok (.ints l) := by
+  simp only [decode, C07Codec.decListInt_encList, C07Codec.decListInt_encListBody, liftO, Except.map, and_self]
+
+/-- **time signatures** `n/d` (both within the bound) keep their value through the string round trip, in the
+    plain form and in the list form of 0.4.0 / 0.5.0 (`[6/8]`, further components `[2/4,3/4]` included) -/
+theorem tsig_roundtrip (t : TimeSig) (hn : t.num ≤ BOUND) (hd : t.den ≤ BOUND) (ho : ∀ f ∈ t.others, C07Codec.FracWF f) :
+    (t.others = [] → decode .tsig (encTsig t) = .ok (.tsig t)) ∧ decode .tsig (encTsigList t) = .ok (.tsig t) := by
+  constructor
+  · intro he
+    obtain ⟨n, d, o⟩ := t
+    simp only at he hn hd
+    subst he
+    simp only [decode, C07Codec.decTsig_encTsig n d hn hd, Except.map]
+  · simp only [decode, C07Codec.decTsig_encTsigList t hn hd ho, Except.map]
+
+example : encTsigList ⟨2, 4, [⟨3, 4, none, none⟩]⟩ = "[2/4,3/4]".toList ∧
+    decTsig "[2/4,3/4]".toList = .ok ⟨2, 4, [⟨3, 4, none, none⟩]⟩ := by decide +kernel
+
+-- ---------------------------------------------------------------- every codec of the field tables
+
+/-- the sign-and-digits reading of a decimal numeral -/
+def fixedVal (k : Nat) (neg : Bool) (n : Nat) : Rat :=
+  if neg then -((n : Rat) / (pow10 k : Rat)) else (n : Rat) / (pow10 k : Rat)
+
+/-- **admissible values of a codec** (formatter, interpreter): the values its format version allows.
+    Floats: the number IS the k-decimal numeral its formatter prints (`'%.kf'`: "four-decimal beat times";
+    `repr`: the shortest decimal) - the binary64 rounding inside the formatter is part of the model, so the
+    condition is stated on the model's output.  Keys: the 30 keys, and the 900 double keys in the spellings
+    that have them.  The three pitch fields are not self-inverse codecs (`pitch_ok`, Props/C07Lines.lean). -/
+def Adm : Enc → Dec → Val → Prop
+  | .int, .int, .int _ => True
+  | .strip, .str, .str s => strip s = s
+  | .raw, .str, .str _ => True
+  | .quoted, .strOld, .str s => strip s = s ∧ s ≠ []
+  | .fix k, .float, .dec q => ∃ neg n, 1 ≤ k ∧ encFix k q = printFixed k neg n ∧ q = fixedVal k neg n
+  | .repr, .float, .dec q => ∃ k neg n, 1 ≤ k ∧ encRepr q = some (printFixed k neg n) ∧ q = fixedVal k neg n
+  | .frac, .frac, .frac f => C07Codec.FracWF f
+  | .fracRational, .frac, .frac f => C07Codec.FracWF f ∧ (f.den = 1 ∧ f.tdiv = none → f.add = none)
+  | .list, .list, .strs l => C07Codec.Words l ∧ l ≠ [[]]
+  | .listBody, .list, .strs l => C07Codec.Words l ∧ l ≠ [[]] ∧ ∀ x, l.head? = some x → x.head? ≠ some '['
+  | .list, .listInt, .ints _ => True
+  | .listBody, .listInt, .ints _ => True
+  | .version, .version, .ver _ _ _ => True
+  | .key fmt, .key, .key k =>
+    (fmt ∈ [KeyFmt.v100, KeyFmt.v030, KeyFmt.v010, KeyFmt.v030list] ∧ ∃ fm ∈ allKeys, k = key1 fm) ∨
+      (fmt ∈ [KeyFmt.v100, KeyFmt.v030] ∧ ∃ a ∈ allKeys, ∃ b ∈ allKeys, k = key2 a b)
+  | .tsig, .tsig, .tsig t => t.others = [] ∧ t.num ≤ BOUND ∧ t.den ≤ BOUND
+  | .tsigList, .tsig, .tsig t => t.num ≤ BOUND ∧ t.den ≤ BOUND ∧ ∀ f ∈ t.others, C07Codec.FracWF f
+  | .tempo, .tempo, .tempo s => strip s = s ∧ s ≠ [] ∧ (∀ c ∈ s, c ≠ ',') ∧ s.head? ≠ some '['
+  | _, _, _ => False
+
+theorem toStrRational_roundtrip (f : Frac) (h : C07Codec.FracWF f) (hr : f.den = 1 ∧ f.tdiv = none → f.add = none) :
+    fracFromString f.toStrRational = .ok f := by
+  unfold Frac.toStrRational
+  by_cases hc : f.den = 1 ∧ f.tdiv = none
+  · simp only [hc, and_self, if_true]
+    have ha := hr hc
+    obtain ⟨n, d, t, a⟩ := f
+    simp only at hc ha
+    obtain ⟨rfl, rfl⟩ := hc
+    subst ha
+    unfold C07Codec.FracWF at h
+    simp only at h
+    have e1 : showNatS 1 = ['1'] := by decide +kernel
+    have e : showNatS n ++ ['/', '1'] = showNatS n ++ '/' :: showNatS 1 := by rw [e1]
+    rw [e, C07Codec.fracFromString_eq, C07Codec.fracSimple_2]
+    have h1 : ¬ (1024 < n) := by unfold BOUND at h; omega
+    simp [Frac.mk?, h1, BOUND]
+  · simp only [hc, if_false]
+    exact C07Codec.fracFromString_toStr_full f h
+
+/-- **every codec of the generated field tables is a round trip on its admissible values**: the value is
+    written, and the text is read back as the same value (hence writing it again gives the identical
+    text) -/
+theorem codec_roundtrip (e : Enc) (d : Dec) (v : Val) (h : Adm e d v) :
+    ∃ text, encode e v = some text ∧ decode d text = .ok v := by
+  unfold Adm at h
+  split at h
+  · exact ⟨_, rfl, int_roundtrip _⟩
+  · rename_i s
+    exact ⟨strip s, rfl, by simp only [decode, h]⟩
+  · exact ⟨_, rfl, rfl⟩
+  · exact ⟨_, rfl, quoted_roundtrip _ h.1 h.2⟩
+  · rename_i k q
+    obtain ⟨neg, n, hk, he, hq⟩ := h
+    refine ⟨encFix k q, rfl, ?_⟩
+    rw [he, fixed_decimal_roundtrip_partial k neg n hk, hq]
+    rfl
+  · rename_i q
+    obtain ⟨k, neg, n, hk, he, hq⟩ := h
+    refine ⟨printFixed k neg n, by simp only [encode, he], ?_⟩
+    rw [fixed_decimal_roundtrip_partial k neg n hk, hq]
+    rfl
+  · rename_i f
+    exact ⟨f.toStr, rfl, by simp only [decode, frac_string_roundtrip f h, Except.map]⟩
+  · rename_i f
+    exact ⟨f.toStrRational, rfl, by simp only [decode, toStrRational_roundtrip f h.1 h.2, Except.map]⟩
+  · rename_i l
+    exact ⟨encList l, rfl, list_roundtrip l h.1 h.2⟩
+  · rename_i l
+    exact ⟨encListBody l, rfl, list_body_roundtrip l h.1 h.2.1 h.2.2⟩
+  · rename_i l
+    exact ⟨encList (l.map showIntS), rfl, (int_list_roundtrip l).1⟩
+  · rename_i l
+    exact ⟨encListBody (l.map showIntS), rfl, (int_list_roundtrip l).2⟩
+  · rename_i a b c
+    exact ⟨encVersion a b c, rfl, version_roundtrip a b c⟩
+  · rename_i fmt k
+    have key : (encKey fmt k).bind decKey = some (some k) := by
+      rcases h with ⟨hf, fm, hfm, rfl⟩ | ⟨hf, a, ha, b, hb, rfl⟩
+      · exact key_names fm hfm fmt hf
+      · simp only [List.mem_cons, List.not_mem_nil, or_false] at hf
+        rcases hf with rfl | rfl
+        · exact key_pairs_v100 a ha b hb
+        · exact key_pairs_v030 a ha b hb
+    cases he : encKey fmt k with
+    | none => rw [he] at key; simp at key
+    | some text =>
+      rw [he] at key
+      simp only [Option.bind_some] at key
+      exact ⟨text, he, by simp only [decode, key, liftO, Except.map]⟩
+  · rename_i t
+    obtain ⟨ho, hn, hd⟩ := h
+    exact ⟨encTsig t, rfl, (tsig_roundtrip t hn hd (by rw [ho]; intro f hf; simp at hf)).1 ho⟩
+  · rename_i t
+    obtain ⟨hn, hd, ho⟩ := h
+    exact ⟨encTsigList t, rfl, (tsig_roundtrip t hn hd ho).2⟩
+  · rename_i s
+    exact ⟨s, rfl, tempo_roundtrip s h.1 h.2.1 h.2.2.1 h.2.2.2⟩
+  · exact absurd h id
+
+-- non-vacuity: admissible values exist for the float codecs (model output evaluated), durations and keys
+example : Adm (.fix 4) .float (.dec (5 / 4)) := ⟨false, 12500, by decide, by decide +kernel, by decide +kernel⟩
+example : Adm .repr .float (.dec (-5 / 4)) := ⟨2, true, 125, by decide, by decide +kernel, by decide +kernel⟩
+example : Adm (.key .v030list) .key (.key (key1 (-3, .minor))) :=
+  Or.inl ⟨by decide, (-3, .minor), by decide +kernel, rfl⟩
 
 end C07
